@@ -45,7 +45,7 @@ def load_known():
 
 
 def msg_kind(msg):
-    for k, tag in [('postcondition', 'postcondition'), ('precondition', 'precondition'), ('assertion', 'assertion'),
+    for k, tag in [('postcondition', 'postcondition'), ('post-condition', 'postcondition'), ('precondition', 'precondition'), ('assertion', 'assertion'),
                    ('invariant', 'invariant'), ('decreases', 'termination'), ('termination', 'termination'),
                    ('overflow', 'arithmetic'), ('division', 'arithmetic')]:
         if k in msg:
